@@ -749,6 +749,14 @@ where
                 let x = F::deserialize_eps(st).map_err(|e| format!("deserialize_eps: {e}"))?;
                 Ok(Loaded::View(Box::new(EpsView { x, _buf: buf })))
             }
+            "eps8" => {
+                // the same bytes placed at 8 modulo 16 (a legitimate buffer for ε-serde; leaked)
+                let mut bytes: Vec<u8> = Vec::new();
+                self.serialize(&mut bytes).map_err(|e| format!("serialize: {e}"))?;
+                let st = leak_aligned(&bytes, true);
+                let x = F::deserialize_eps(st).map_err(|e| format!("deserialize_eps: {e}"))?;
+                Ok(Loaded::View(Box::new(EpsView { x, _buf: Vec::new() })))
+            }
             "mmap" => {
                 let dir = tempfile::tempdir().map_err(|e| e.to_string())?;
                 let path = dir.path().join("s.bin");
